@@ -51,7 +51,8 @@ Inductive outcome :=
   | ORaised        (* the other exception left run() *)
   | OEnvEnd        (* environment script exhausted: select() had no step left *)
   | OBlocked       (* select() without timeout and nothing registered is readable: blocks for ever *)
-  | OSpin.         (* nothing to wait for: _loop does nothing, run() spins for ever *)
+  | OSpin          (* nothing to wait for: _loop does nothing, run() spins for ever *)
+  | OKeyError.     (* ZMQEventLoop only: KeyError left run() although no callback raised *)
 
 (* ---------- state ---------- *)
 Record alarm_t := mkAlarm { a_due : Z; a_tie : Z; a_cb : Z }.
@@ -398,7 +399,7 @@ Definition enc_event (e : event) : list Z :=
   end.
 
 Definition enc_outcome (o : outcome) : Z :=
-  match o with OReturned => 0 | ORaised => 1 | OEnvEnd => 2 | OBlocked => 3 | OSpin => 4 end.
+  match o with OReturned => 0 | ORaised => 1 | OEnvEnd => 2 | OBlocked => 3 | OSpin => 4 | OKeyError => 5 end.
 
 Definition enc_result (r : state * outcome) : list Z :=
   let '(s, o) := r in
@@ -425,9 +426,3 @@ Definition run_select_case (l : list Z) : list Z :=
   | _ => [-1]
   end.
 
-(* first integer selects the sub-model: 0 = SelectEventLoop *)
-Definition run_case (l : list Z) : list Z :=
-  match l with
-  | 0 :: r => run_select_case r
-  | _ => [-2]
-  end.
